@@ -293,11 +293,41 @@ Definition add_filtered (f : forest) (nx : nat) : forest * nat :=
 Definition filtered (f : forest) : forest := fst (add_filtered f 1).
 
 (* ------------------------------------------------------------------ *)
+(* (c') the calls of the predicate made by the two scans, in order.  Both
+   loops have the same skeleton: no call once stopped, one call per child,
+   descend only after True / False(None); [after s x] is the stopped flag
+   the loop holds after the iteration for child [x]. *)
+Definition opens (x : verdict) : bool :=        (* the children are scanned *)
+  match x with VTrue | VFalse => true | _ => false end.
+
+Fixpoint scan_calls (after : bool -> rt -> bool) (s : bool) (t : rt) {struct t} : list nat :=
+  match t with
+  | T id i ch =>
+      if s then [] else
+      id :: (if opens (v id) then
+               (fix go (l : list rt) (s : bool) {struct l} : list nat :=
+                  match l with
+                  | [] => []
+                  | x :: xs => scan_calls after s x ++ go xs (after s x)
+                  end) ch false
+             else [])
+  end.
+
+Fixpoint scan_calls_f (after : bool -> rt -> bool) (s : bool) (l : list rt) {struct l} : list nat :=
+  match l with
+  | [] => []
+  | x :: xs => scan_calls after s x ++ scan_calls_f after (after s x) xs
+  end.
+
+Definition ip_calls (f : forest) : list nat :=
+  scan_calls_f (fun s x => snd (ip_node s x)) false f.
+Definition af_calls (f : forest) : list nat :=
+  scan_calls_f (fun s x => snd (af_node x ([], 0, s))) false f.
+
+(* ------------------------------------------------------------------ *)
 (* (d) set characterisation *)
 Definition accepts (x : verdict) : bool :=
   match x with VTrue | VSkipKeepSelf | VSelect => true | _ => false end.
-Definition opens (x : verdict) : bool :=        (* the children are scanned *)
-  match x with VTrue | VFalse => true | _ => false end.
 Definition is_stop (x : verdict) : bool := match x with VStop => true | _ => false end.
 Definition is_select (x : verdict) : bool := match x with VSelect => true | _ => false end.
 
